@@ -78,6 +78,10 @@ Definition digit_val (c : N) : option N :=
   if (48 <=? c) && (c <=? 57) then Some (c - 48) else None.
 Definition is_digit (c : N) : bool := (48 <=? c) && (c <=? 57).
 
+(** value of a digit string, most significant digit first *)
+Fixpoint horner (s : str) (acc : N) : N :=
+  match s with [] => acc | c :: r => horner r (10 * acc + (c - 48)) end.
+
 Inductive pu_res := PUOk (n : N) | PUSyntax | PURange.
 
 (** The scanning loop of strconv.ParseUint in base 10: left to right; a
